@@ -322,4 +322,486 @@ theorem runFrom_rightDone (ops : List (Op α)) : ∀ (st : State α) (i : Nat) (
         exact ⟨a, ha⟩
       · exact ⟨[], by simpa using hp⟩
 
+/-! ## Replay -/
+
+/-- `k` consecutive calls of `select` (the receiver never looks at the `Start` part of the state) -/
+def selectIter : Nat → State α → State α × List (Sel α)
+  | 0, st => (st, [])
+  | k + 1, st => ((selectIter k (select st).1).1, (select st).2 :: (selectIter k (select st).1).2)
+
+/-- the receiver is in the middle of a replay of the left cache -/
+structure ReplayingL (st : State α) : Prop where
+  cached : st.left.cached = true
+  term : st.left.missingTerm = 0
+  full : st.left.cacheFull = true
+  notFirst : st.firstMessage = false
+  more : st.left.cachePointer < st.left.cache.length
+  alive : st.right.missingTerm ≠ 0
+
+theorem select_replayingL {st : State α} (h : ReplayingL st) :
+    select st = ({ st with left := st.left.nextCached.1 },
+                 .replay true (st.left.cache.getD st.left.cachePointer (0, []))) := by
+  have hcf : st.left.cacheFinished = false := by
+    simp [Side.cacheFinished]; exact h.more
+  have h1 : (st.left.isTerminated && st.right.isTerminated && decide (numTerminates st > 0)) = false := by
+    simp [Side.isTerminated, h.alive]
+  have h2 : prepare st = st := by
+    unfold prepare; simp [hcf]
+  unfold select
+  rw [h1, h2]
+  unfold selectBody
+  simp [h.notFirst, h.cached, h.full, hcf, Side.nextCached]
+
+theorem nextCached_pointer (s : Side α) : s.nextCached.1.cachePointer = s.cachePointer + 1 := by
+  unfold Side.nextCached; simp only; split <;> rfl
+theorem nextCached_full (s : Side α) : s.nextCached.1.cacheFull = s.cacheFull := by
+  unfold Side.nextCached; simp only; split <;> rfl
+theorem nextCached_missingFar_last (s : Side α) (h : s.cache.length ≤ s.cachePointer + 1) :
+    s.nextCached.1.missingFar = 0 := by
+  unfold Side.nextCached; simp [Side.cacheFinished, h]
+
+/-- **A replay hands out the whole rest of the cache, in order, and touches no channel.** -/
+theorem replayL_whole_cache : ∀ (k : Nat) (st : State α), ReplayingL st →
+    k = st.left.cache.length - st.left.cachePointer →
+    (selectIter k st).2 = (st.left.cache.drop st.left.cachePointer).map (Sel.replay true)
+    ∧ (selectIter k st).1.qL = st.qL ∧ (selectIter k st).1.qR = st.qR
+    ∧ (selectIter k st).1.left.cache = st.left.cache
+    ∧ (selectIter k st).1.left.cachePointer = st.left.cache.length
+    ∧ (selectIter k st).1.left.missingFar = 0
+    ∧ (selectIter k st).1.right = st.right := by
+  intro k
+  induction k with
+  | zero => intro st h hk; have := h.more; omega
+  | succ k ih =>
+    intro st h hk
+    have hsel := select_replayingL h
+    have hm := h.more
+    have hdrop : st.left.cache.drop st.left.cachePointer
+        = st.left.cache.getD st.left.cachePointer (0, []) :: st.left.cache.drop (st.left.cachePointer + 1) := by
+      rw [List.drop_eq_getElem_cons hm]
+      simp [List.getD_eq_getElem?_getD, List.getElem?_eq_getElem hm]
+    simp only [selectIter, hsel]
+    by_cases hlast : st.left.cachePointer + 1 < st.left.cache.length
+    · have h' : ReplayingL ({ st with left := st.left.nextCached.1 } : State α) :=
+        ⟨by simp [h.cached], by simp [h.term], by simp [nextCached_full, h.full], h.notFirst,
+         by simp [nextCached_pointer]; exact hlast, h.alive⟩
+      obtain ⟨i1, i2, i3, i4, i5, i6, i7⟩ := ih _ h' (by simp [nextCached_pointer]; omega)
+      simp only [nextCached_cache, nextCached_pointer] at i1 i4 i5
+      refine ⟨?_, i2, i3, ?_, ?_, i6, i7⟩
+      · rw [hdrop, List.map_cons, i1]
+      · rw [i4]
+      · rw [i5]
+    · have hk0 : k = 0 := by omega
+      subst hk0
+      simp only [selectIter]
+      refine ⟨?_, trivial, trivial, by simp, ?_, ?_, trivial⟩
+      · rw [hdrop]
+        have : st.left.cache.drop (st.left.cachePointer + 1) = [] := by
+          apply List.drop_eq_nil_of_le; omega
+        simp [this]
+      · simp [nextCached_pointer]; omega
+      · exact nextCached_missingFar_last _ (by omega)
+
+/-! ## Conservation of payloads (no cache) -/
+
+theorem payloads_append (l : Bool) (a b : List (Elem (Bin α))) :
+    payloads l (a ++ b) = payloads l a ++ payloads l b := by
+  induction a with
+  | nil => rfl
+  | cons e es ih =>
+    cases e with
+    | item v => cases v <;> cases l <;> simp [payloads, ih]
+    | ts v t => cases v <;> cases l <;> simp [payloads, ih]
+    | wm t => simp [payloads, ih]
+    | flushBatch => simp [payloads, ih]
+    | term => simp [payloads, ih]
+    | far => simp [payloads, ih]
+
+theorem inPayloads_append (a b : List (Elem α)) : inPayloads (a ++ b) = inPayloads a ++ inPayloads b := by
+  induction a with
+  | nil => rfl
+  | cons e es ih => cases e <;> simp [inPayloads, ih]
+
+/-- `process_side` of an uncached LEFT side keeps the payloads (and adds none of the other side) -/
+theorem processElems_left (mf mt : Nat) (es : List (Elem α)) :
+    payloads true (processElems Bin.left Bin.leftEnd false mf mt es).2.2.1 = inPayloads es
+    ∧ payloads false (processElems Bin.left Bin.leftEnd false mf mt es).2.2.1 = [] := by
+  induction es generalizing mf mt with
+  | nil => simp [processElems, payloads, inPayloads]
+  | cons e es ih =>
+    have := ih (if e.isFar then mf - 1 else mf) (if e.isTerm then mt - 1 else mt)
+    cases e <;> simp [processElems, payloads_append, payloads, inPayloads, Elem.isFar, Elem.isTerm, Elem.map] at this ⊢
+      <;> (try split) <;> simp [payloads, this]
+
+theorem processElems_right (mf mt : Nat) (es : List (Elem α)) :
+    payloads false (processElems Bin.right Bin.rightEnd false mf mt es).2.2.1 = inPayloads es
+    ∧ payloads true (processElems Bin.right Bin.rightEnd false mf mt es).2.2.1 = [] := by
+  induction es generalizing mf mt with
+  | nil => simp [processElems, payloads, inPayloads]
+  | cons e es ih =>
+    have := ih (if e.isFar then mf - 1 else mf) (if e.isTerm then mt - 1 else mt)
+    cases e <;> simp [processElems, payloads_append, payloads, inPayloads, Elem.isFar, Elem.isTerm, Elem.map] at this ⊢
+      <;> (try split) <;> simp [payloads, this]
+
+theorem step_dead {β : Type} (s : Noir.Start.State) (h : s.missingTerm = 0) (a : Noir.Start.Arrival β) :
+    Noir.Start.step s a = (s, []) := by
+  simp [Noir.Start.step, h]
+
+theorem feed_dead {β : Type} (s : Noir.Start.State) (h : s.missingTerm = 0) (r : Nat) (es : List (Elem β)) :
+    feed s r es = (s, []) := by
+  induction es with
+  | nil => rfl
+  | cons e es ih => simp [feed, step_dead s h, ih]
+
+/-- a live `Start` passes every data element on and adds none -/
+theorem step_payloads (l : Bool) (s : Noir.Start.State) (h : s.missingTerm ≠ 0) (r : Nat) (e : Elem (Bin α)) :
+    payloads l (Noir.Start.step s (.elem r e)).2 = payloads l [e] := by
+  cases e with
+  | item v => simp [Noir.Start.step, h]
+  | ts v t => simp [Noir.Start.step, h]
+  | flushBatch => simp [Noir.Start.step, h]
+  | wm t =>
+    simp only [Noir.Start.step, h, if_false]
+    cases (s.frontier.update r t).2 <;> simp [payloads]
+  | far =>
+    simp only [Noir.Start.step, h, if_false, Noir.Start.afterCounters]
+    split <;> (try split) <;> simp [payloads]
+  | term =>
+    simp only [Noir.Start.step, h, if_false, Noir.Start.afterCounters]
+    split <;> (try split) <;> simp [payloads]
+
+theorem feed_payloads (l : Bool) (r : Nat) (es : List (Elem (Bin α))) : ∀ (s : Noir.Start.State),
+    (feed s r es).1.missingTerm ≠ 0 → payloads l (feed s r es).2 = payloads l es := by
+  induction es with
+  | nil => intro s _; rfl
+  | cons e es ih =>
+    intro s h
+    by_cases hs : s.missingTerm = 0
+    · rw [feed_dead s hs] at h; exact absurd hs h
+    · simp only [feed] at h ⊢
+      rw [payloads_append, ih _ h, step_payloads l s hs]
+      rw [← payloads_append]; rfl
+
+/-- payloads still waiting in the left / right channel -/
+def pendL (st : State α) : List α := inPayloads (st.qL.flatMap (·.2))
+def pendR (st : State α) : List α := inPayloads (st.qR.flatMap (·.2))
+
+/-- the elements a `select` hands to `Start` -/
+def selElems (s : Sel α) : List (Elem (Bin α)) := match s.batch? with | some b => b.2 | none => []
+
+theorem process_out (s : Side α) (w : α → Bin α) (e : Bin α) (r : Nat) (es : List (Elem α)) :
+    (s.process w e r es).2.1.2 = (processElems w e s.cached s.missingFar s.missingTerm es).2.2.1 := by
+  unfold Side.process; rfl
+
+/-- what the conservation statement needs from one receiver step -/
+structure Conserves (st st' : State α) (sel : Sel α) : Prop where
+  lc : st'.left.cached = false
+  rc : st'.right.cached = false
+  left : payloads true (selElems sel) ++ pendL st' = pendL st
+  right : payloads false (selElems sel) ++ pendR st' = pendR st
+
+theorem recvLeft_conserves (st : State α) (hl : st.left.cached = false) (hr : st.right.cached = false) :
+    Conserves st (recvLeft st).1 (recvLeft st).2 := by
+  unfold recvLeft
+  split
+  · exact ⟨hl, hr, by simp [selElems, Sel.batch?, payloads], by simp [selElems, Sel.batch?, payloads]⟩
+  · rename_i r es q hq
+    simp only
+    split
+    · exact ⟨hl, hr, by simp [selElems, Sel.batch?, payloads], by simp [selElems, Sel.batch?, payloads]⟩
+    · have hp := processElems_left st.left.missingFar st.left.missingTerm es
+      refine ⟨by simp [hl], hr, ?_, ?_⟩
+      · simp [selElems, Sel.batch?, process_out, hl, hp.1, pendL, hq, inPayloads_append]
+      · simp [selElems, Sel.batch?, process_out, hl, hp.2, pendR]
+
+theorem recvRight_conserves (st : State α) (hl : st.left.cached = false) (hr : st.right.cached = false) :
+    Conserves st (recvRight st).1 (recvRight st).2 := by
+  unfold recvRight
+  split
+  · exact ⟨hl, hr, by simp [selElems, Sel.batch?, payloads], by simp [selElems, Sel.batch?, payloads]⟩
+  · rename_i r es q hq
+    simp only
+    split
+    · exact ⟨hl, hr, by simp [selElems, Sel.batch?, payloads], by simp [selElems, Sel.batch?, payloads]⟩
+    · have hp := processElems_right st.right.missingFar st.right.missingTerm es
+      refine ⟨hl, by simp [hr], ?_, ?_⟩
+      · simp [selElems, Sel.batch?, process_out, hr, hp.2, pendL]
+      · simp [selElems, Sel.batch?, process_out, hr, hp.1, pendR, hq, inPayloads_append]
+
+theorem selectRecv_conserves (st : State α) (hl : st.left.cached = false) (hr : st.right.cached = false) :
+    Conserves st (selectRecv st).1 (selectRecv st).2 := by
+  unfold selectRecv
+  split
+  · exact recvRight_conserves st hl hr
+  · split
+    · exact recvLeft_conserves st hl hr
+    · split
+      · split
+        · exact recvRight_conserves st hl hr
+        · exact recvLeft_conserves st hl hr
+        · have := recvLeft_conserves { st with ambiguous := true } hl hr
+          exact ⟨this.lc, this.rc, this.left, this.right⟩
+      · exact recvRight_conserves st hl hr
+      · exact recvLeft_conserves st hl hr
+      · exact ⟨hl, hr, by simp [selElems, Sel.batch?, payloads], by simp [selElems, Sel.batch?, payloads]⟩
+
+theorem select_conserves (st : State α) (hl : st.left.cached = false) (hr : st.right.cached = false) :
+    Conserves st (select st).1 (select st).2 := by
+  have hpl : (prepare st).left.cached = false := by unfold prepare; split <;> simp [hl]
+  have hpr : (prepare st).right.cached = false := by unfold prepare; split <;> simp [hr]
+  have hql : pendL (prepare st) = pendL st := by unfold prepare pendL; split <;> rfl
+  have hqr : pendR (prepare st) = pendR st := by unfold prepare pendR; split <;> rfl
+  unfold select
+  split
+  · rename_i h
+    simp [numTerminates, hl, hr] at h
+  · unfold selectBody
+    simp only [hpl, hpr, Bool.or_self, Bool.and_false, Bool.false_and, if_false, Bool.false_eq_true]
+    have := selectRecv_conserves (prepare st) hpl hpr
+    exact ⟨this.lc, this.rc, by rw [this.left, hql], by rw [this.right, hqr]⟩
+
+theorem pump_conserves : ∀ (fuel : Nat) (st : State α), st.left.cached = false → st.right.cached = false →
+    (pump fuel st).2.2.2 ≠ .done →
+    payloads true (pump fuel st).2.1 ++ pendL (pump fuel st).1 = pendL st
+    ∧ payloads false (pump fuel st).2.1 ++ pendR (pump fuel st).1 = pendR st := by
+  intro fuel
+  induction fuel with
+  | zero => intro st _ _ _; simp [pump, payloads]
+  | succ n ih =>
+    intro st hl hr hnd
+    have hc := select_conserves st hl hr
+    unfold pump at hnd ⊢
+    split at hnd
+    · exact absurd rfl hnd
+    · rename_i hlive
+      rw [if_neg hlive]
+      simp only at hnd ⊢
+      split at hnd
+      · rename_i hb
+        have hse : selElems (select st).2 = [] := by simp [selElems, hb]
+        have hL := hc.left; have hR := hc.right
+        rw [hse] at hL hR
+        split
+        · exact ⟨by simpa [payloads] using hL, by simpa [payloads] using hR⟩
+        · split
+          · exact ⟨by simpa [payloads, pendL] using hL, by simpa [payloads, pendR] using hR⟩
+          · exact ⟨by simpa [payloads, pendL] using hL, by simpa [payloads, pendR] using hR⟩
+      · rename_i b hb
+        have hse : selElems (select st).2 = b.2 := by simp [selElems, hb]
+        split at hnd
+        · exact absurd rfl hnd
+        · rename_i hfed
+          rw [if_neg hfed]
+          simp only at hnd ⊢
+          have hi := ih ({ (select st).1 with
+              start := (feed (select st).1.start b.1 b.2).1, alreadyTimedOut := false }) hc.lc hc.rc hnd
+          have hL := hc.left; have hR := hc.right
+          rw [hse] at hL hR
+          rw [payloads_append, payloads_append, feed_payloads true _ _ _ hfed, feed_payloads false _ _ _ hfed]
+          refine ⟨?_, ?_⟩
+          · rw [List.append_assoc, hi.1]; exact hL
+          · rw [List.append_assoc, hi.2]; exact hR
+
+/-- payloads sent on one side by a history -/
+def sentPayloads (left : Bool) : List (Op α) → List α
+  | [] => []
+  | .enq l _ es :: ops => if l = left then inPayloads es ++ sentPayloads left ops else sentPayloads left ops
+  | .pump :: ops => sentPayloads left ops
+
+theorem pump_nocache (fuel : Nat) (st : State α) (hl : st.left.cached = false) (hr : st.right.cached = false) :
+    (pump fuel st).1.left.cached = false ∧ (pump fuel st).1.right.cached = false :=
+  pump_preserves (fun st => st.left.cached = false ∧ st.right.cached = false)
+    (fun st h => ⟨(select_conserves st h.1 h.2).lc, (select_conserves st h.1 h.2).rc⟩)
+    (fun _ _ _ h => h) fuel st ⟨hl, hr⟩
+
+theorem runFrom_conserves (ops : List (Op α)) : ∀ (st : State α) (i : Nat),
+    st.left.cached = false → st.right.cached = false → (runFrom st i ops).2.2.1 = .idle →
+    payloads true ((runFrom st i ops).2.1.map (·.2)) ++ pendL (runFrom st i ops).1 = pendL st ++ sentPayloads true ops
+    ∧ payloads false ((runFrom st i ops).2.1.map (·.2)) ++ pendR (runFrom st i ops).1 = pendR st ++ sentPayloads false ops := by
+  induction ops with
+  | nil => intro st i _ _ _; simp [runFrom, payloads, sentPayloads]
+  | cons op ops ih =>
+    intro st i hl hr hidle
+    cases op with
+    | enq l r es =>
+      simp only [runFrom] at hidle ⊢
+      have := ih (enqueue st l r es) (i + 1) (by cases l <;> simp [enqueue, hl]) (by cases l <;> simp [enqueue, hr]) hidle
+      cases l
+      · simpa [enqueue, pendL, pendR, sentPayloads, inPayloads_append] using this
+      · simpa [enqueue, pendL, pendR, sentPayloads, inPayloads_append] using this
+    | pump =>
+      simp only [runFrom] at hidle ⊢
+      have hnc := pump_nocache (pumpFuel st) st hl hr
+      split at hidle
+      · rename_i hoc
+        have hp := pump_conserves (pumpFuel st) st hl hr (by rw [hoc]; simp)
+        have hi := ih (pump (pumpFuel st) st).1 (i + 1) hnc.1 hnc.2 hidle
+        simp only [sentPayloads]
+        simp only [List.map_append, List.map_map, payloads_append]
+        have hm : List.map ((fun x => x.2) ∘ fun e => (i, e)) (pump (pumpFuel st) st).2.1 = (pump (pumpFuel st) st).2.1 := by
+          simp [Function.comp_def]
+        rw [hm]
+        refine ⟨?_, ?_⟩
+        · rw [List.append_assoc, hi.1, ← List.append_assoc, hp.1]
+        · rw [List.append_assoc, hi.2, ← List.append_assoc, hp.2]
+      · rename_i hne
+        exact absurd hidle (by simpa using hne)
+
+theorem select_leftDone_cache {st : State α} {q} (h : LeftDone st q) :
+    (select st).1.left.cache = st.left.cache := by
+  have hp := prepare_leftDone h
+  have hpc : (prepare st).left.cache = st.left.cache := by unfold prepare; split <;> simp
+  unfold select
+  split
+  · rfl
+  · rw [← hpc]
+    unfold selectBody
+    split
+    · rw [if_pos hp.cached]; simp
+    · split
+      · simp
+      · split
+        · rfl
+        · unfold selectRecv; rw [if_pos hp.isEnded]; simp
+
+theorem pump_leftDone_cache {q} (fuel : Nat) (st : State α) (h : LeftDone st q) :
+    (pump fuel st).1.left.cache = st.left.cache :=
+  (pump_preserves (fun s => LeftDone s q ∧ s.left.cache = st.left.cache)
+    (fun s hs => ⟨select_leftDone hs.1, by rw [select_leftDone_cache hs.1]; exact hs.2⟩)
+    (fun _ _ _ hs => ⟨⟨hs.1.cached, hs.1.term, hs.1.queue⟩, hs.2⟩) fuel st ⟨h, rfl⟩).2
+
+/-! ## `Terminate` once and last -/
+
+/-- a live `Start` either stays alive and emits no `Terminate`, or dies emitting exactly `[Terminate]` -/
+theorem step_term {β : Type} (s : Noir.Start.State) (h : s.missingTerm ≠ 0) (a : Noir.Start.Arrival β) :
+    ((Noir.Start.step s a).1.missingTerm ≠ 0 ∧ Elem.term ∉ (Noir.Start.step s a).2)
+    ∨ ((Noir.Start.step s a).1.missingTerm = 0 ∧ (Noir.Start.step s a).2 = [Elem.term]) := by
+  cases a with
+  | timeout => left; simp [Noir.Start.step, h]
+  | elem r e =>
+    cases e with
+    | item v => left; simp [Noir.Start.step, h]
+    | ts v t => left; simp [Noir.Start.step, h]
+    | flushBatch => left; simp [Noir.Start.step, h]
+    | wm t =>
+      left
+      simp only [Noir.Start.step, h, if_false]
+      cases (s.frontier.update r t).2 <;> simp [h]
+    | far =>
+      simp only [Noir.Start.step, h, if_false, Noir.Start.afterCounters]
+      split <;> (left; simp_all)
+    | term =>
+      simp only [Noir.Start.step, h, if_false, Noir.Start.afterCounters]
+      split
+      · right; simp_all
+      · split <;> (left; simp_all)
+
+theorem feed_term {β : Type} (r : Nat) (es : List (Elem β)) : ∀ (s : Noir.Start.State), s.missingTerm ≠ 0 →
+    ((feed s r es).1.missingTerm ≠ 0 ∧ Elem.term ∉ (feed s r es).2)
+    ∨ ((feed s r es).1.missingTerm = 0 ∧ ∃ pre, (feed s r es).2 = pre ++ [Elem.term] ∧ Elem.term ∉ pre) := by
+  induction es with
+  | nil => intro s h; left; simp [feed, h]
+  | cons e es ih =>
+    intro s h
+    simp only [feed]
+    rcases step_term s h (.elem r e) with ⟨h1, h2⟩ | ⟨h1, h2⟩
+    · rcases ih _ h1 with ⟨i1, i2⟩ | ⟨i1, pre, i2, i3⟩
+      · left; exact ⟨i1, by simp [h2, i2]⟩
+      · right; exact ⟨i1, (Noir.Start.step s (.elem r e)).2 ++ pre, by rw [i2, List.append_assoc], by simp [h2, i3]⟩
+    · right
+      rw [feed_dead _ h1, h2]
+      exact ⟨h1, [], by simp, by simp⟩
+
+theorem selectRecv_start (st : State α) : (selectRecv st).1.start = st.start := by
+  unfold selectRecv
+  split
+  · simp
+  · split
+    · simp
+    · split
+      · split <;> simp
+      · simp
+      · simp
+      · rfl
+
+theorem select_start (st : State α) : (select st).1.start = st.start := by
+  have hp : (prepare st).start = st.start := by unfold prepare; split <;> rfl
+  unfold select
+  split
+  · rfl
+  · rw [← hp]
+    unfold selectBody
+    split
+    · split <;> simp
+    · split
+      · rfl
+      · split
+        · rfl
+        · exact selectRecv_start _
+
+/-- `Terminate` is the last thing a pump returns, at most once, and exactly when it ends `done` -/
+theorem pump_term : ∀ (fuel : Nat) (st : State α), st.start.missingTerm ≠ 0 →
+    ((pump fuel st).2.2.2 ≠ .done ∧ (pump fuel st).1.start.missingTerm ≠ 0 ∧ Elem.term ∉ (pump fuel st).2.1)
+    ∨ ((pump fuel st).2.2.2 = .done ∧ ∃ pre, (pump fuel st).2.1 = pre ++ [Elem.term] ∧ Elem.term ∉ pre) := by
+  intro fuel
+  induction fuel with
+  | zero => intro st h; left; simp [pump, h]
+  | succ n ih =>
+    intro st h
+    unfold pump
+    rw [if_neg h]
+    simp only
+    split
+    · left
+      split
+      · simp [select_start, h]
+      · split <;> simp [select_start, h]
+    · rename_i b hb
+      have hs : (select st).1.start.missingTerm ≠ 0 := by rw [select_start]; exact h
+      rcases feed_term b.1 b.2 _ hs with ⟨f1, f2⟩ | ⟨f1, pre, f2, f3⟩
+      · rw [if_neg f1]
+        simp only
+        rcases ih ({ (select st).1 with start := (feed (select st).1.start b.1 b.2).1, alreadyTimedOut := false }) f1
+          with ⟨i1, i2, i3⟩ | ⟨i1, pre, i2, i3⟩
+        · left; exact ⟨i1, i2, by simp [f2, i3]⟩
+        · right; exact ⟨i1, (feed (select st).1.start b.1 b.2).2 ++ pre, by rw [i2, List.append_assoc], by simp [f2, i3]⟩
+      · rw [if_pos f1]
+        right; exact ⟨rfl, pre, f2, f3⟩
+
+theorem map_tag {β : Type} (i : Nat) (l : List β) : (l.map (fun e => (i, e))).map (·.2) = l := by
+  simp [Function.comp_def]
+
+theorem runFrom_term (ops : List (Op α)) : ∀ (st : State α) (i : Nat), st.start.missingTerm ≠ 0 →
+    ((runFrom st i ops).2.2.1 ≠ .done ∧ Elem.term ∉ (runFrom st i ops).2.1.map (·.2))
+    ∨ ((runFrom st i ops).2.2.1 = .done
+        ∧ ∃ pre, (runFrom st i ops).2.1.map (·.2) = pre ++ [Elem.term] ∧ Elem.term ∉ pre) := by
+  induction ops with
+  | nil => intro st i _; left; simp [runFrom]
+  | cons op ops ih =>
+    intro st i h
+    cases op with
+    | enq l r es =>
+      simp only [runFrom]
+      exact ih (enqueue st l r es) (i + 1) (by cases l <;> simpa [enqueue] using h)
+    | pump =>
+      simp only [runFrom]
+      have hp := pump_term (pumpFuel st) st h
+      split
+      · rename_i hoc
+        rcases hp with ⟨_, p2, p3⟩ | ⟨p1, _⟩
+        · rcases ih (pump (pumpFuel st) st).1 (i + 1) p2 with ⟨i1, i2⟩ | ⟨i1, pre, i2, i3⟩
+          · left
+            refine ⟨i1, ?_⟩
+            simp only [List.map_append, map_tag]
+            simp only [List.mem_append, not_or]
+            exact ⟨p3, i2⟩
+          · right
+            refine ⟨i1, (pump (pumpFuel st) st).2.1 ++ pre, ?_, ?_⟩
+            · simp only [List.map_append, map_tag, i2, List.append_assoc]
+            · simp only [List.mem_append, not_or]; exact ⟨p3, i3⟩
+        · rw [hoc] at p1; cases p1
+      · rcases hp with ⟨p1, _, p3⟩ | ⟨p1, pre, p2, p3⟩
+        · left; exact ⟨p1, by simpa only [map_tag] using p3⟩
+        · right; exact ⟨p1, pre, by simpa only [map_tag] using p2, p3⟩
+
 end Noir.BinaryStart
